@@ -244,12 +244,12 @@ CBC_ENC_PRE = CLOSURE_PRE + '''
 AFTER_CHUNKS = '''
         let ghost ps0 = aviews(blocks.in_val());
         let ghost t0 = tail.in_val();
-        let ghost n = ps0.len() as int;
-        let ghost d = t0.len() as int;
+        let ghost nb = ps0.len() as int;
+        let ghost dd = t0.len() as int;
         proof {
             assert(is_chunking(m0, bl, ps0, t0));
             chunking_len(m0, bl, ps0, t0);
-            assert(n >= 1) by (nonlinear_arith) requires n == (ll as int) / (bl as int), ll >= bl, bl > 0;
+            assert(nb >= 1) by (nonlinear_arith) requires nb == (ll as int) / (bl as int), ll >= bl, bl > 0;
         }
 '''
 AFTER_CBC_ENC = '''
@@ -258,10 +258,10 @@ AFTER_CBC_ENC = '''
             cbc_c_is_run(e, iv0, ps0);
             run_len(cbc_enc_step(e), seq![iv0], ps0);
             assert(aviews(blocks.out_cur()) == cs);
-            assert(seq![iv@] == seq![cbc_c(e, iv0, ps0, n - 1)]);
-            assert(seq![iv@][0] == seq![cbc_c(e, iv0, ps0, n - 1)][0]);
-            assert(cs[n - 1] == cbc_c(e, iv0, ps0, n - 1));
-            assert(iv@ == cs[n - 1]);
+            assert(seq![iv@] == seq![cbc_c(e, iv0, ps0, nb - 1)]);
+            assert(seq![iv@][0] == seq![cbc_c(e, iv0, ps0, nb - 1)][0]);
+            assert(cs[nb - 1] == cbc_c(e, iv0, ps0, nb - 1));
+            assert(iv@ == cs[nb - 1]);
         }
 '''
 UNIQ = '''
@@ -277,28 +277,28 @@ PAD_HINT = '''
             assert(block@ =~= pad0(t0, bl));
 '''
 CLAST_HINT = '''
-            assert(block@ == e(xor_seq(pad0(t0, bl), cs[n - 1])));
+            assert(block@ == e(xor_seq(pad0(t0, bl), cs[nb - 1])));
 '''
 CBC3_ENC_END = '''
         proof {
             let outs = aviews(blocks.out_cur());
             assert(buf.out_cur() == flatg(outs) + tail.out_cur());
-            if d == 0 {
+            if dd == 0 {
                 assert(tail.out_cur() =~= Seq::<u8>::empty());
-                if n > 1 {
-                    assert(outs =~= cs.take(n - 2).push(cs[n - 1]).push(cs[n - 2]));
-                    flatg_push(cs.take(n - 2).push(cs[n - 1]), cs[n - 2]);
-                    flatg_push(cs.take(n - 2), cs[n - 1]);
+                if nb > 1 {
+                    assert(outs =~= cs.take(nb - 2).push(cs[nb - 1]).push(cs[nb - 2]));
+                    flatg_push(cs.take(nb - 2).push(cs[nb - 1]), cs[nb - 2]);
+                    flatg_push(cs.take(nb - 2), cs[nb - 1]);
                 } else {
                     assert(outs =~= cs);
                 }
-                assert(buf.out_cur() =~= cs_arrange(3, cs, 0, e(xor_seq(pad0(t0, iv0.len()), cs[n - 1]))));
+                assert(buf.out_cur() =~= cs_arrange(3, cs, 0, e(xor_seq(pad0(t0, iv0.len()), cs[nb - 1]))));
             } else {
-                let c_last = e(xor_seq(pad0(t0, bl), cs[n - 1]));
-                assert(outs =~= cs.take(n - 1).push(c_last));
-                flatg_push(cs.take(n - 1), c_last);
-                assert(tail.out_cur() =~= cs[n - 1].take(d));
-                assert(buf.out_cur() =~= cs_arrange(3, cs, d as nat, c_last));
+                let c_last = e(xor_seq(pad0(t0, bl), cs[nb - 1]));
+                assert(outs =~= cs.take(nb - 1).push(c_last));
+                flatg_push(cs.take(nb - 1), c_last);
+                assert(tail.out_cur() =~= cs[nb - 1].take(dd));
+                assert(buf.out_cur() =~= cs_arrange(3, cs, dd as nat, c_last));
             }
             assert(buf.out_cur() == cbc_cs_enc(3, e, iv0, ps0, t0));
 ''' + UNIQ % 'cbc_cs_enc(3, e, iv0, ps, t)' + '''
@@ -321,11 +321,11 @@ CBC2_ENC_END = '''
         proof {
             let outs = aviews(blocks.out_cur());
             assert(buf.out_cur() == flatg(outs) + tail.out_cur());
-            let c_last = e(xor_seq(pad0(t0, bl), cs[n - 1]));
-            assert(outs =~= cs.take(n - 1).push(c_last));
-            flatg_push(cs.take(n - 1), c_last);
-            assert(tail.out_cur() =~= cs[n - 1].take(d));
-            assert(buf.out_cur() =~= cs_arrange(2, cs, d as nat, c_last));
+            let c_last = e(xor_seq(pad0(t0, bl), cs[nb - 1]));
+            assert(outs =~= cs.take(nb - 1).push(c_last));
+            flatg_push(cs.take(nb - 1), c_last);
+            assert(tail.out_cur() =~= cs[nb - 1].take(dd));
+            assert(buf.out_cur() =~= cs_arrange(2, cs, dd as nat, c_last));
             assert(buf.out_cur() == cbc_cs_enc(2, e, iv0, ps0, t0));
 ''' + UNIQ % 'cbc_cs_enc(2, e, iv0, ps, t)' + '''
         }
@@ -340,9 +340,9 @@ CBC1_AFTER_ENC = '''
             cbc_c_is_run(e, iv0, ps0);
             run_len(cbc_enc_step(e), seq![iv0], ps0);
             assert(aviews(gb.out_fut()) == cs);
-            assert(seq![iv@][0] == seq![cbc_c(e, iv0, ps0, n - 1)][0]);
-            assert(cs[n - 1] == cbc_c(e, iv0, ps0, n - 1));
-            assert(iv@ == cs[n - 1]);
+            assert(seq![iv@][0] == seq![cbc_c(e, iv0, ps0, nb - 1)][0]);
+            assert(cs[nb - 1] == cbc_c(e, iv0, ps0, nb - 1));
+            assert(iv@ == cs[nb - 1]);
         }
 '''
 CBC1_EARLY = '''
@@ -354,15 +354,15 @@ CBC1_EARLY = '''
 '''
 CBC1_ENC_END = '''
         proof {
-            let c_last = e(xor_seq(pad0(t0, bl), cs[n - 1]));
+            let c_last = e(xor_seq(pad0(t0, bl), cs[nb - 1]));
             let before = flatg(cs) + gt.out_fut();
             flatg_len(cs, bl);
-            flatg_len(cs.take(n - 1), bl);
-            assert(cs =~= cs.take(n - 1).push(cs[n - 1]));
-            flatg_push(cs.take(n - 1), cs[n - 1]);
-            assert((n - 1) * bl + bl == n * bl) by (nonlinear_arith);
-            assert(before.take((n - 1) * bl + d) =~= flatg(cs.take(n - 1)) + cs[n - 1].take(d));
-            assert(buf.out_cur() =~= flatg(cs.take(n - 1)) + cs[n - 1].take(d) + c_last);
+            flatg_len(cs.take(nb - 1), bl);
+            assert(cs =~= cs.take(nb - 1).push(cs[nb - 1]));
+            flatg_push(cs.take(nb - 1), cs[nb - 1]);
+            assert((nb - 1) * bl + bl == nb * bl) by (nonlinear_arith);
+            assert(before.take((nb - 1) * bl + dd) =~= flatg(cs.take(nb - 1)) + cs[nb - 1].take(dd));
+            assert(buf.out_cur() =~= flatg(cs.take(nb - 1)) + cs[nb - 1].take(dd) + c_last);
             assert(buf.out_cur() == cbc_cs_enc(1, e, iv0, ps0, t0));
 ''' + UNIQ % 'cbc_cs_enc(1, e, iv0, ps, t)' + '''
         }
@@ -383,6 +383,117 @@ def cbc_enc_call(variant):
     return FnC(props=PG, inherits=True, attrs=at,
                stmts={'0': CBC_ENC_PRE, '2': CBC1_AFTER_CHUNKS, '3': CBC1_AFTER_ENC, '3.0.0': CBC1_EARLY,
                       '5': ZERO_HINT, '6': PAD_HINT, '8': CLAST_HINT, 'end': CBC1_ENC_END})
+
+
+ECB_ENC_PRE = CLOSURE_PRE + '''
+        let ghost e = cipher.enc_fn();
+        let ghost m0 = buf0.in_val();
+'''
+AFTER_ECB_ENC = '''
+        let ghost cs = ecb_map(e, ps0);
+        proof {
+            assert(aviews(blocks.out_cur()) =~= cs);
+        }
+'''
+ECB_BLOCK_HINT = '''
+        assert(block@ =~= t0 + cs[nb - 1].skip(dd));
+'''
+ECB_CLAST_HINT = '''
+        assert(block@ == e(t0 + cs[nb - 1].skip(dd)));
+'''
+
+
+def ecb_uniq(variant):
+    return UNIQ % ('ecb_cs_enc(%d, e, bl, ps, t)' % variant)
+
+
+def ecb_early(variant):
+    return '''
+            proof {
+                assert(tail.out_cur() =~= Seq::<u8>::empty());
+                assert(buf.out_cur() =~= flatg(cs));
+''' + ecb_uniq(variant) + '''
+            }
+'''
+
+
+ECB1_ENC_END = '''
+        proof {
+            let c_last = e(t0 + cs[nb - 1].skip(dd));
+            let before = flatg(cs) + tail.out_cur();
+            flatg_len(cs, bl);
+            flatg_len(cs.take(nb - 1), bl);
+            assert(cs =~= cs.take(nb - 1).push(cs[nb - 1]));
+            flatg_push(cs.take(nb - 1), cs[nb - 1]);
+            assert((nb - 1) * bl + bl == nb * bl) by (nonlinear_arith);
+            assert(before.take((nb - 1) * bl + dd) =~= flatg(cs.take(nb - 1)) + cs[nb - 1].take(dd));
+            assert(buf.out_cur() =~= flatg(cs.take(nb - 1)) + cs[nb - 1].take(dd) + c_last);
+            assert(buf.out_cur() == ecb_cs_enc(1, e, bl, ps0, t0));
+''' + ecb_uniq(1) + '''
+        }
+'''
+
+
+def ecb_steal_end(variant):
+    return '''
+            let outs = aviews(blocks.out_cur());
+            assert(buf.out_cur() == flatg(outs) + tail.out_cur());
+            let c_last = e(t0 + cs[nb - 1].skip(dd));
+            assert(outs =~= cs.take(nb - 1).push(c_last));
+            flatg_push(cs.take(nb - 1), c_last);
+            assert(tail.out_cur() =~= cs[nb - 1].take(dd));
+            assert(buf.out_cur() =~= cs_arrange(%d, cs, dd as nat, c_last));
+''' % variant
+
+
+ECB2_ENC_END = '''
+        proof {
+''' + ecb_steal_end(2) + '''
+            assert(buf.out_cur() == ecb_cs_enc(2, e, bl, ps0, t0));
+''' + ecb_uniq(2) + '''
+        }
+'''
+ECB3_ENC_END = '''
+        proof {
+            let outs = aviews(blocks.out_cur());
+            assert(buf.out_cur() == flatg(outs) + tail.out_cur());
+            if dd == 0 {
+                assert(tail.out_cur() =~= Seq::<u8>::empty());
+                if nb > 1 {
+                    assert(outs =~= cs.take(nb - 2).push(cs[nb - 1]).push(cs[nb - 2]));
+                    flatg_push(cs.take(nb - 2).push(cs[nb - 1]), cs[nb - 2]);
+                    flatg_push(cs.take(nb - 2), cs[nb - 1]);
+                } else {
+                    assert(outs =~= cs);
+                }
+                assert(buf.out_cur() =~= cs_arrange(3, cs, 0, e(t0 + cs[nb - 1].skip(dd))));
+            } else {
+''' + ecb_steal_end(3) + '''
+            }
+            assert(buf.out_cur() == ecb_cs_enc(3, e, bl, ps0, t0));
+''' + ecb_uniq(3) + '''
+        }
+'''
+
+
+def ecb_enc_call(variant):
+    at = ['#[verifier::loop_isolation(false)]']
+    if variant == 1:
+        return FnC(props=PG, inherits=True, attrs=at,
+                   stmts={'0': ECB_ENC_PRE, '2': AFTER_CHUNKS, '3': AFTER_ECB_ENC, '3.0.0': ecb_early(1),
+                          '9': ECB_BLOCK_HINT, '10': ECB_CLAST_HINT + '''
+        assert(aviews(blocks.out_cur()) =~= cs);
+''', '11': '''
+        assert(buf.out_cur() == flatg(cs) + tail.out_cur());
+        let ghost before = buf.out_cur();
+''', 'end': ECB1_ENC_END.replace('let before = flatg(cs) + tail.out_cur();', '')})
+    if variant == 2:
+        return FnC(props=PG, inherits=True, attrs=at,
+                   stmts={'0': ECB_ENC_PRE, '2': AFTER_CHUNKS, '3': AFTER_ECB_ENC, '3.0.0': ecb_early(2),
+                          '9': ECB_BLOCK_HINT, '10': ECB_CLAST_HINT, 'end': ECB2_ENC_END})
+    return FnC(props=PG, inherits=True, attrs=at,
+               stmts={'0': ECB_ENC_PRE, '2': AFTER_CHUNKS, '3': AFTER_ECB_ENC,
+                      '3.1.5': ECB_BLOCK_HINT, '3.1.6': ECB_CLAST_HINT, 'end': ECB3_ENC_END})
 
 
 def variant_mod(fname, obj, cbc, variant, enc_call=None, dec_call=None):
@@ -435,7 +546,7 @@ def variant_mod(fname, obj, cbc, variant, enc_call=None, dec_call=None):
         Sel('struct Closure'),
         Sel('impl BlockSizeUser for Closure'),
         Sel('impl BlockCipherEncClosure for Closure', members=clo_enc_members, fns={'call': enc_call or FnC(props=PG, inherits=True)}),
-        Sel('impl BlockCipherDecClosure for Closure', members=clo_dec_members, fns={'call': dec_call or FnC(props=PG, inherits=True)}),
+        Sel('impl BlockCipherDecClosure for Closure', members=clo_dec_members, fns={'call': dec_call or FnC(props=PG, external_body=True, kani=('cts_*dec*',), note='decrypt closure: not yet under a Verus contract; behaviour checked by the cts_*dec* harnesses against the NIST reference (bounded: b in {2,3}, every length <= 3b+1, in place and buffer to buffer)')}),
     ]
     uses = 'use super as cipher; use super::cts_lib::{Encrypt, Decrypt, Error, cbc_dec, cbc_enc, ecb_dec, ecb_enc, xor};'
     return Mod(modname, 'cts/src/%s.rs' % fname, uses=uses, items=items)
@@ -445,4 +556,7 @@ def unit():
     return Unit('cts', prelude=K.PRELUDE_BLOCK, spec=['steps.rs', 'cts.rs'], mods=[lib_mod(),
                       variant_mod('cbc_cs1', 'CbcCs1', True, 1, enc_call=cbc_enc_call(1)),
                       variant_mod('cbc_cs2', 'CbcCs2', True, 2, enc_call=cbc_enc_call(2)),
-                      variant_mod('cbc_cs3', 'CbcCs3', True, 3, enc_call=cbc_enc_call(3))])
+                      variant_mod('cbc_cs3', 'CbcCs3', True, 3, enc_call=cbc_enc_call(3)),
+                      variant_mod('ecb_cs1', 'EcbCs1', False, 1, enc_call=ecb_enc_call(1)),
+                      variant_mod('ecb_cs2', 'EcbCs2', False, 2, enc_call=ecb_enc_call(2)),
+                      variant_mod('ecb_cs3', 'EcbCs3', False, 3, enc_call=ecb_enc_call(3))])
